@@ -12,6 +12,7 @@ import (
 	"github.com/git-lfs/git-lfs/v3/tools/humanize"
 	"github.com/git-lfs/git-lfs/v3/tq"
 	"github.com/git-lfs/git-lfs/v3/tr"
+	"github.com/git-lfs/git-lfs/v3/verifhook"
 	"github.com/rubyist/tracerx"
 )
 
@@ -163,6 +164,9 @@ func (f *GitFilter) downloadFileFallBack(writer io.Writer, ptr *Pointer, working
 }
 
 func (f *GitFilter) readLocalFile(writer io.Writer, ptr *Pointer, mediafile string, workingfile string, cb tools.CopyCallback) (int64, error) {
+	verifhook.Crash("smudge.output.begin")
+	defer verifhook.Crash("smudge.output.end")
+
 	reader, err := tools.RobustOpen(mediafile)
 	if err != nil {
 		return 0, errors.Wrap(err, tr.Tr.Get("error opening media file"))
